@@ -21,7 +21,7 @@ for attempt in (1, 2, 3):
             p = subprocess.run(["/venv/bin/python", "-m", "pytest", "-ra", "-q", "-p", "no:cacheprovider", "--timeout=900",
                                 "--continue-on-collection-errors", "--junitxml=" + out], cwd=repo, env=env,
                                stdout=subprocess.PIPE, stderr=subprocess.STDOUT, text=True,
-                               timeout=int(os.environ.get("BASELINE_TIMEOUT", "900")))
+                               timeout=int(os.environ.get("BASELINE_TIMEOUT", "480")))
         except subprocess.TimeoutExpired:
             print("attempt %d: pytest did not finish within the time box, retrying" % attempt)
             continue
